@@ -543,6 +543,10 @@ func (cu *CellUnion) ExactArea() float64 {
 	return area
 }
 
+// maxEncodedCells is the maximum number of cells of a CellUnion that can be
+// encoded or decoded.
+const maxEncodedCells = 1000000
+
 // Encode encodes the CellUnion.
 func (cu *CellUnion) Encode(w io.Writer) error {
 	e := &encoder{w: w}
@@ -551,6 +555,12 @@ func (cu *CellUnion) Encode(w io.Writer) error {
 }
 
 func (cu *CellUnion) encode(e *encoder) {
+	if len(*cu) > maxEncodedCells {
+		if e.err == nil {
+			e.err = fmt.Errorf("too many cells (%d; max is %d)", len(*cu), maxEncodedCells)
+		}
+		return
+	}
 	e.writeInt8(encodingVersion)
 	e.writeInt64(int64(len(*cu)))
 	for _, ci := range *cu {
@@ -578,9 +588,8 @@ func (cu *CellUnion) decode(d *decoder) {
 	if d.err != nil {
 		return
 	}
-	const maxCells = 1000000
-	if n > maxCells {
-		d.err = fmt.Errorf("too many cells (%d; max is %d)", n, maxCells)
+	if n > maxEncodedCells {
+		d.err = fmt.Errorf("too many cells (%d; max is %d)", n, maxEncodedCells)
 		return
 	}
 	*cu = make([]CellID, n)
